@@ -61,6 +61,29 @@ theorem C12_entries_authentic_tiles (hf : HashFn H) (hinj : LeafInj hf) (hnode :
       (by rw [hB]; exact hw) (by rw [hr]; exact hroot) (by rw [hB]; exact hv)
   exact C12_entries_authentic hf hinj allow start (N * 256) data hs t L ⟨hlen, hr⟩ hauth i e hy
 
+/-- **The pinned tile reader (finding F10).** `TileAuth.readLeafHash` is an executable reader that performs every check
+of `TileAuth.Verified`; whatever tiles are served, a hash it returns for leaf `i` of a tree head is the record hash of
+leaf `i` of every leaf list that tree head commits to. -/
+theorem C12_tile_reader_sound (hf : HashFn H) (hnode : NodeInj hf.node) (B : List H)
+    (tiles : List (TileAuth.TileData H)) (i : Nat) (h : H)
+    (hr : TileAuth.readLeafHash hf.node hf.empty B.length (mth hf.node hf.empty B) tiles i = some h) : B[i]? = some h :=
+  TileAuth.readLeafHash_sound hf.node hf.empty hnode B tiles i h hr
+
+/-- `tlog.TileHashReader` at the pinned version is that reader MINUS the parent comparison of the first
+`popcount n − #(non-empty edge tiles)` tiles of the chain (`TileAuth.readLeafHashTlog`; the driver of engine `tilereader`
+checks that the real code is exactly this function on every served tile set). It is sound for the sizes at which nothing
+is skipped — and only the correspondence run, not a theorem, stands behind the others: there the real reader hands out
+served hashes unauthenticated (replayed by `corpus/C12/tilereader-F10-…` and, through `sunlight.Client`, by
+`corpus/C12/client-F10-…`). -/
+theorem C12_pinned_tile_reader_sound_where_it_skips_nothing (hf : HashFn H) (hnode : NodeInj hf.node) (B : List H)
+    (tiles : List (TileAuth.TileData H)) (i : Nat) (h : H) (hs : TileAuth.tlogSkipped B.length = 0)
+    (hr : TileAuth.readLeafHashTlog hf.node hf.empty B.length (mth hf.node hf.empty B) tiles i = some h) : B[i]? = some h :=
+  TileAuth.readLeafHashTlog_sound_of_no_skip hf.node hf.empty hnode B tiles i h hs hr
+
+/-- sizes at which the pinned reader skips comparisons exist from 259 on (three peaks in two edge tiles) -/
+example : TileAuth.tlogSkipped 256 = 0 ∧ TileAuth.tlogSkipped 257 = 0 ∧ TileAuth.tlogSkipped 259 = 1 ∧
+    TileAuth.tlogSkipped 300 = 2 := by decide
+
 /-- **C12_entry_index / authentic.** `Client.Entry(tree, index)` — for any served tile and any
 proof — returns only an entry whose Merkle leaf is the committed leaf at `index`, and (unless it
 is an archival leaf, which has no index) whose leaf index is `index`. -/
